@@ -107,6 +107,21 @@ def epoch_of(text):
     return int((d - datetime(1970, 1, 1, tzinfo=timezone.utc)) // timedelta(seconds=1))
 
 
+ORIGIN = 62135596800  # seconds from 0001-01-01 (origin of the C06 date model) to the epoch
+
+
+def text_dates_ok(*specs):
+    """may the model parse the date headers itself (C06's IMF-fixdate model)? True when every date
+    spec is absent, an entity tag, or an instant rendered as IMF-fixdate (fmt 0)"""
+    for sp in specs:
+        if sp is None or "etag" in sp:
+            continue
+        if "t" in sp and sp.get("fmt", 0) == 0:
+            continue
+        return False
+    return True
+
+
 def ascii_clean(*texts):
     return all(t is None or (t.isascii() and "\n" not in t and "\x00" not in t) for t in texts)
 
@@ -283,6 +298,14 @@ class ConditionalStream(Stream):
 
         if not ascii_clean(case["range"], case["if_range_h"], case["inm_h"], case["im_h"], case["etag_h"]):
             return None
+        if text_dates_ok(case["ims"], case["if_range"]):
+            # nothing opaque: the driver parses the IMF-fixdate texts with the C06 date model
+            tcommon = [opt(hs, case["range"]), opt(hs, case["if_range_h"]), opt(hs, case["ims_h"]), opt(hs, case["inm_h"]), opt(hs, case["im_h"]), opt(hs, case["etag_h"])]
+            if case["route"] == "direct":
+                lm = case["lm"]
+                return line("condt", b01(case["ignore_if_range"]), *tcommon, opt(str, None if lm is None else lm[0] + ORIGIN), 0 if lm is None else lm[1])
+            lmt = None if case["lm"] is None else http_date(lm_datetime(case["lm"]))
+            return line("respt", hs(case["method"]), *tcommon, opt(hs, lmt), opt(str, case["clen"]), b01(case["accept_ranges"]), hx(BODY), "~", 0)
         common = [opt(hs, case["range"]), opt(hs, case["if_range_h"]), opt(str, epoch_of(case["if_range_h"])), opt(str, epoch_of(case["ims_h"])), opt(hs, case["inm_h"]), opt(hs, case["im_h"]), opt(hs, case["etag_h"])]
         if case["route"] == "direct":
             lm = case["lm"]
@@ -545,8 +568,9 @@ class RangesStream(Stream):
             r.last_modified = datetime.fromtimestamp(case["lm"], timezone.utc)
         try:
             r.make_conditional(env, accept_ranges=True, complete_length=len(data))
-        except RequestedRangeNotSatisfiable:
-            return "416"
+        except RequestedRangeNotSatisfiable as e:
+            cr = dict(e.get_headers(env)).get("Content-Range", "")
+            return "416|" + (cr[len("bytes ") :] if cr.startswith("bytes ") else "?" + cr)
         app_iter, status, hdrs = r.get_wsgi_response(env)
         hdrs = {k.lower(): v for k, v in hdrs}
         body = [bytes(c) for c in app_iter]
@@ -556,7 +580,9 @@ class RangesStream(Stream):
             m = re.fullmatch(r"bytes (-?\d+)-(-?\d+)/(-?\d+)", cr)
             cr = f"{m.group(1)}-{m.group(2)}/{m.group(3)}" if m else "?" + cr
         body_s = out_list(hx(c) for c in body if c) if code == "206" else hx(b"".join(body))
-        return "|".join([code, opt(str, cr), opt(str, hdrs.get("content-length")), body_s])
+        ar = hdrs.get("accept-ranges")
+        ar = "0" if ar is None else ("1" if ar == "bytes" else "?" + ar)
+        return "|".join([code, opt(str, cr), opt(str, hdrs.get("content-length")), body_s, ar])
 
     def model_line(self, case):
         data, chunks = self.chunks_of(case)
@@ -565,7 +591,14 @@ class RangesStream(Stream):
             return None
         etag = None if case["etag"] is None else render_tag(*case["etag"])
         seek = str(case["bufsize"]) if case["kind"] == "file" and case["seekable"] else "~"
-        return line("resp", hs(case["method"]), opt(hs, h.get("Range")), opt(hs, h.get("If-Range")), opt(str, epoch_of(h.get("If-Range"))), "~", "~", "~", opt(hs, etag), opt(str, case["lm"]), len(data), "1", out_list(hx(c) for c in chunks), seek, {"list": 0, "gen": 1, "file": 2}[case["kind"]])
+        kind = {"list": 0, "gen": 1, "file": 2}[case["kind"]]
+        body = out_list(hx(c) for c in chunks)
+        if text_dates_ok(case["if_range"]):
+            from werkzeug.http import http_date
+
+            lmt = None if case["lm"] is None else http_date(datetime.fromtimestamp(case["lm"], timezone.utc))
+            return line("respt", hs(case["method"]), opt(hs, h.get("Range")), opt(hs, h.get("If-Range")), "~", "~", "~", opt(hs, etag), opt(hs, lmt), len(data), "1", body, seek, kind)
+        return line("resp", hs(case["method"]), opt(hs, h.get("Range")), opt(hs, h.get("If-Range")), opt(str, epoch_of(h.get("If-Range"))), "~", "~", "~", opt(hs, etag), opt(str, case["lm"]), len(data), "1", body, seek, kind)
 
     # -- oracle ----------------------------------------------------------
 
@@ -605,6 +638,8 @@ class RangesStream(Stream):
                 return f"status {code} for {why} (complete 200 body expected)"
             if body != full:
                 return f"200 body {body!r} is not the complete body ({why})"
+            if f[2] != "~" and f[2] != str(len(data)):
+                return f"Content-Length {f[2]} of the 200 response is not the length of the complete body ({len(data)})"
             return None
 
         if case["method"] not in ("GET", "HEAD"):
@@ -779,7 +814,7 @@ CHECK = Check(
     modules=["WzVerif.Props.C11", "WzVerif.Props.C11T"],
     streams=[ConditionalStream(), RangesStream(), ParserStream(), PreludeKernels()],
     assumptions=[
-        "parse_date (email.utils) is an opaque parameter of the model: the harness supplies the parsed instant of every date header as integer epoch seconds; datetime comparison = comparison of those integers after flooring last_modified to whole seconds",
+        "parse_date (email.utils): for IMF-fixdate text (what http_date produces) the driver parses the header itself with the C06 date model (Model/Date.lean, date_roundtrip), nothing is opaque; for other notations (offsets, asctime, garbage) the harness supplies the parsed instant as integer epoch seconds (opaque parameter); datetime comparison = comparison of the instants after flooring last_modified to whole seconds",
         "a FileWrapper over a file object yields blocks of at most buffer_size bytes and never an empty block; seek/tell of the underlying file behave like io.BytesIO (validated by stream ranges)",
         "str.lower()/strip() are modelled for ASCII header text without line feeds (WSGI header values); other text is checked by the oracle only",
         "_etag_re, _plain_int_re and the split/strip calls of parse_range_header are hand-modelled and validated by streams parsers / ranges",
@@ -792,7 +827,7 @@ CHECK = Check(
 
 MANIFEST = {
     "level_text": "Machine-checked Lean 4 theorems about an executable model of is_resource_modified, parse_range_header, Range.range_for_length, is_byte_range_valid (compared with the live function over a cube by decide), Response.make_conditional / _process_range_request and wsgi._RangeWrapper: the not-modified condition is characterised exactly, range_for_length is sound, and the range wrapper is proved to emit exactly body[start:start+len] for every chunking of the body (including empty chunks) on both the iterator and the seekable-file path; the model is tied to the code by three differential streams and the property oracle (independent reference) runs on the real code.",
-    "level_note": "Trusted: Lean kernel; extract.py; the correspondence harness; CPython re/str/datetime/io for modelled primitives; parse_date is an opaque parameter. Known finding F11f (ranges on empty resources are ignored instead of 416).",
+    "level_note": "Trusted: Lean kernel; extract.py; the correspondence harness; CPython re/str/datetime/io for modelled primitives; parse_date is modelled for IMF-fixdate text (C06's date model) and an opaque parameter for other notations. Known finding F11f (ranges on empty resources are ignored instead of 416).",
     "technique": "Lean 4 proof (induction over chunk lists, case analysis of the decision procedure, decide over a regenerated table) + model/code correspondence",
     "design_ref": "DESIGN.md section 4, C11",
 }
